@@ -1,0 +1,1 @@
+//! Hooks owned by property C14 (feature `verif-hooks`).
